@@ -279,9 +279,19 @@ func (x *extractor) irStmt(s ast.Stmt, ind string) string {
 					guard = x.irExpr(cs.X)
 				case *ast.AssignStmt:
 					names, ok := identNames(cs.Lhs)
-					if ok && len(cs.Rhs) == 1 {
-						guard = "(.bin \":=\" (.lit \"names\" " + x.irExprs(cs.Lhs) + ") " + x.irExpr(cs.Rhs[0]) + ")"
-						_ = names
+					if ue, isRecv := cs.Rhs[0].(*ast.UnaryExpr); ok && len(cs.Rhs) == 1 && isRecv && ue.Op == token.ARROW && cs.Tok == token.DEFINE {
+						// `case v, ok := <-ch: BODY`  is  `case <-ch: v, ok := chan:recvd(ch); BODY` — the case is chosen by the channel
+						// operation, the names are bound to what that operation received when the body starts
+						guard = x.irExpr(cs.Rhs[0])
+						bind := ind + "    (.define " + lstrs(names) + " E[(.call \"chan:recvd\" E[" + x.irExpr(ue.X) + "])])"
+						body := x.irBlock(cc.Body, ind+"  ")
+						if body == "B[]" {
+							body = "B[\n" + bind + "]"
+						} else {
+							body = "B[\n" + bind + ",\n" + strings.TrimPrefix(body, "B[\n")
+						}
+						parts = append(parts, ind+"  ("+guard+", "+body+")")
+						continue
 					} else {
 						guard = "(.unsupported " + lstr(x.src(cs)) + ")"
 					}
